@@ -112,6 +112,19 @@ func polygon(c *mon.Case) {
 	}
 	cellSize := s2.AvgEdgeMetric.Value(level)
 	faceEdge := false
+	if r.Intn(200) == 0 { // more than 128 loops nested inside each other (depth no longer fits one varint byte)
+		nGroups, level, pOther, pFree = 0, 30, 0, 0
+		ctr := gen.RandCenter(r)
+		rad := 0.3
+		for d := 0; d < 130+r.Intn(40); d++ {
+			sp := gen.RegularSpec(ctr, 24+r.Intn(12), rad, r.Float64()*7)
+			if vs, ok := gen.SnapToLevel(sp.Vs, 30); ok {
+				loops = append(loops, vs)
+			}
+			rad *= 0.985 // below cos(pi/24): the next ring fits inside the previous one's inscribed circle
+		}
+		c.Count("polygon.deeply_nested", 1)
+	}
 	for g := 0; g < nGroups; g++ {
 		var ctr s2.Point
 		good := false
